@@ -219,3 +219,7 @@ type memSink struct{ m map[string]bool }
 func (s *memSink) Put(k string) { s.m[k] = true }
 
 func ViaInterface(s sink, k string) { s.Put(k) }
+
+// ---- goroutines -------------------------------------------------------------------------------
+
+func Spawns(f func()) { go f() }
